@@ -1295,6 +1295,7 @@ static int32 tls13WriteCertificateVerify(ssl_t *ssl, sslBuf_t *out)
 static int32 tls13WriteEndOfEarlyData(ssl_t *ssl, sslBuf_t *out)
 {
     int32 rc;
+    unsigned char emptyBody[1] = { 0 }; /* NULL + 0 is undefined in C */
     psTracePrintHsMessageCreate(ssl, SSL_HS_EOED);
 
     /*
@@ -1303,7 +1304,7 @@ static int32 tls13WriteEndOfEarlyData(ssl_t *ssl, sslBuf_t *out)
 
     rc = makeHsRecord(ssl,
             SSL_HS_EOED,
-            NULL,
+            emptyBody,
             0,
             PS_TRUE,
             out);
